@@ -82,8 +82,10 @@ func maxI(a, b int) int {
 }
 
 var c14Cfg = newPart("C14", "usability",
-	"complete enumeration: 32 subsets of {C,Q,P,S,T} x 7 challenge formats (0..6) x 4 password hashes (0..3) x digits -1..12 x hashes 0..4 x time steps {-1,0,1,60} = 250880 configurations; oracle: usable iff digits 4..10 and hash supported and every selected field has its format / password hash / positive time step; observed at SuiteConfig.Validate, NewSuite, RawSuite.Validate (and GenerateOCRA refuses unusable ones); every configuration distinct",
+	"complete enumeration: 32 subsets of {C,Q,P,S,T} x 7 challenge formats (0..6) x 4 password hashes (0..3) x digits -1..12 x hashes 0..4 x time steps {-1,0,1,60} = 250880 configurations, each under 5 suite texts (free text, empty, two registered names, a parseable unregistered string — the text of a hand-built configuration does not change what its fields say); oracle: usable iff digits 4..10 and hash supported and every selected field has its format / password hash / positive time step; observed at SuiteConfig.Validate, NewSuite, RawSuite.Validate (and GenerateOCRA refuses unusable ones); every configuration distinct",
 	checkC14Cfg)
+
+var c14Raws = []string{"x", "", "OCRA-1:HOTP-SHA1-6:QN08", "OCRA-1:HOTP-SHA512-8:QN08-T1M", "OCRA-1:HOTP-SHA256-7:C-QN10-PSHA256-S064-T30S"}
 
 func TestC14_Usability(t *testing.T) {
 	rec := c14Cfg.rec()
@@ -97,17 +99,21 @@ func TestC14_Usability(t *testing.T) {
 				for d := -1; d <= 12; d++ {
 					for h := 0; h <= 4; h++ {
 						for _, ts := range []int{-1, 0, 1, 60} {
-							i++
-							if !ev.Mine(i) {
-								continue
-							}
-							c := c14CfgCase{Cfg: ref.OCRACfg{Raw: "x", Hash: h, Digits: d, C: mask&1 != 0, Q: mask&2 != 0, P: mask&4 != 0, S: mask&8 != 0, T: mask&16 != 0, QFormat: qf, PHash: ph, TimeStep: ts, SessionNN: -1}}
-							if v := c14Cfg.safe(c); v.Err != nil {
-								c14Cfg.each(t, c)
-							}
-							n++
-							if ref.SuiteUsable(c.Cfg) && mask == 31 {
-								sample = c
+							// the suite text is free text for a hand-built configuration: usability is a matter of the fields, also
+							// when the text is empty, names a registered suite (that says something else) or is a string the parser takes
+							for _, raw := range c14Raws {
+								i++
+								if !ev.Mine(i) {
+									continue
+								}
+								c := c14CfgCase{Cfg: ref.OCRACfg{Raw: raw, Hash: h, Digits: d, C: mask&1 != 0, Q: mask&2 != 0, P: mask&4 != 0, S: mask&8 != 0, T: mask&16 != 0, QFormat: qf, PHash: ph, TimeStep: ts, SessionNN: -1}}
+								if v := c14Cfg.safe(c); v.Err != nil {
+									c14Cfg.each(t, c)
+								}
+								n++
+								if ref.SuiteUsable(c.Cfg) && mask == 31 {
+									sample = c
+								}
 							}
 						}
 					}
